@@ -159,6 +159,51 @@ namespace c10
     return p;
   }
 
+  // Mesh part WITH OWN topology (a sub-mesh of vertices / edges / 2D entities, no 3D cells) whose entities are numbered
+  // independently of the parent: every part edge / part face lists its vertices in a random element of the FULL symmetry
+  // group of its shape (2 / 6 / 8 orders, incl. the mirrored ones) relative to the parent entity, the part's index sets
+  // are consistent among themselves (edges-at-face follow the local-face table applied to the part face's own vertex
+  // order) and the target sets point to the parent entities spanned by the same vertices.  trg must be closed
+  // (every sub-entity of a listed entity is listed) and free of repetitions.
+  template<typename Shape_>
+  std::unique_ptr<typename Ty<Shape_>::Part> make_hostile_topo_part(vh::Rng& rng, const MeshSnap& m, const std::vector<Idx> (&trg)[4], bool& nontrivial_code)
+  {
+    constexpr int dim = Shape_::dimension; const ShapeTab t = ShapeSel<Shape_>::tab();
+    Index ne[4] = {0, 0, 0, 0};
+    for(int d = 0; d <= 2; ++d) ne[d] = Index(trg[d].size());
+    std::unique_ptr<typename Ty<Shape_>::Part> p(new typename Ty<Shape_>::Part(ne, true));
+    auto fill = [&](auto& ts, int d) { for(Index i = 0; i < ne[d]; ++i) ts[i] = Index(trg[d][i]); };
+    fill(p->template get_target_set<0>(), 0); fill(p->template get_target_set<1>(), 1); fill(p->template get_target_set<2>(), 2);
+    std::vector<Idx> vloc(m.n[0], NONE); for(Idx i = 0; i < Idx(trg[0].size()); ++i) vloc[trg[0][i]] = i;
+    KeyMap<Idx> eloc;     // key of PARENT vertex pair -> part edge
+    nontrivial_code = false;
+    {
+      auto& is = p->template get_index_set<1, 0>();
+      for(Idx i = 0; i < Idx(trg[1].size()); ++i)
+      {
+        const Idx* pv = &m.idx[1][0][trg[1][i] * 2];
+        const bool sw = rng.coin(); if(sw) nontrivial_code = true;
+        is(Index(i), 0) = Index(vloc[pv[sw ? 1 : 0]]); is(Index(i), 1) = Index(vloc[pv[sw ? 0 : 1]]);
+        eloc.emplace(make_key(pv, 2), i);
+      }
+    }
+    if(!trg[2].empty())
+    {
+      const int nv = t.nv(2), nfe = t.nf(2, 1);
+      auto& fv = p->template get_index_set<2, 0>(); auto& fe = p->template get_index_set<2, 1>();
+      for(Idx i = 0; i < Idx(trg[2].size()); ++i)
+      {
+        const Idx* pv = &m.idx[2][0][trg[2][i] * Idx(nv)];
+        const int code = int(rng.below(t.simplex ? 6 : 8)); if(code != 0) nontrivial_code = true;
+        const int* sym = t.simplex ? tria_sym[code] : quad_sym[code];
+        Idx w[4]; for(int k = 0; k < nv; ++k) { w[k] = pv[sym[k]]; fv(Index(i), k) = Index(vloc[w[k]]); }
+        for(int j = 0; j < nfe; ++j) { const int* lf = t.face(2, 1, j); Idx e2[2] = {w[lf[0]], w[lf[1]]}; fe(Index(i), j) = Index(eloc.at(make_key(e2, 2))); }
+      }
+    }
+    (void)dim;
+    return p;
+  }
+
   // random sub-collection of the d-entities; optionally with all sub-entities (closure), computed harness-side
   inline void random_targets(vh::Rng& rng, const ShapeTab& t, const MeshSnap& m, int top, double frac, bool closure, bool shuffle, std::vector<Idx> (&trg)[4])
   {
@@ -198,6 +243,17 @@ namespace c10
       c.tag(std::string("part:d") + std::to_string(top) + (closure ? "+closure" : "") + (topo ? "+topology" : "") + (dup ? "+repeat" : ""));
       if(ip == 0 && rng.coin(0.5)) { node.add_halo(int(rng.range(0, 5)), make_part<Shape_>(mesh, trg, false)); c.tag("halo"); }
       if(ip == 1 && rng.coin(0.5)) { node.add_patch(int(rng.range(0, 5)), make_part<Shape_>(mesh, trg, false)); c.tag("patch"); }
+    }
+    // sub-mesh parts with an own, independently numbered topology (see make_hostile_topo_part)
+    const int nhost = int(rng.range(0, 2));
+    for(int ip = 0; ip < nhost; ++ip)
+    {
+      const int top = int(rng.range(1, 2));
+      std::vector<Idx> trg[4];
+      random_targets(rng, t, m, top, rng.pick<double>({0.1, 0.4, 1.0}), true, true, trg);
+      bool nontriv = false;
+      node.add_mesh_part("vhx" + std::to_string(ip) + "_d" + std::to_string(top), make_hostile_topo_part<Shape_>(rng, m, trg, nontriv));
+      c.tag(std::string("part:d") + std::to_string(top) + "+own_topology" + (nontriv ? "+resymmetrised" : ""));
     }
     if(rng.coin(0.7))
     {
